@@ -12,7 +12,8 @@ Definition sapp := String.append.
 
 Record ncfg := mkNcfg {
   n_short_lit : shortfn -> string;        (* literal a shortcut hands to _get_function_applied_columns (mean -> avg()) *)
-  n_fmt : string -> string -> string;     (* the f-string f"{func_name}({name})" *)
+  n_canon : string -> string;             (* func_name after `if func_name == "mean": func_name = "avg"` (identity if absent) *)
+  n_fmt : string -> string -> string;     (* the f-string that names the column *)
   n_through_sanitize : bool;              (* the name goes through session._sanitize_column_name *)
   n_sanitize_on : bool;                   (* SANITIZE_COLUMN_NAMES of the session class under test *)
   n_fn_class : string -> option string;   (* functions.py: function name -> sqlglot aggregate class *)
@@ -38,7 +39,8 @@ Definition class_agg (cls arg : string) : option aggfn :=
   else None.
 
 (** _get_function_applied_columns(func_name, [col]) *)
-Definition applied (n : ncfg) (fn col : string) : option (aexpr * string) :=
+Definition applied (n : ncfg) (fn0 col : string) : option (aexpr * string) :=
+  let fn := n_canon n fn0 in
   match n_fn_class n fn with
   | Some cls => match class_agg cls col with
                 | Some f => Some (XAgg f, sanitize n (n_fmt n fn col))
@@ -55,6 +57,15 @@ Definition count_item (n : ncfg) : aexpr * string :=
 
 (** ** PySpark *)
 Definition fmt_spark (fn col : string) : string := sapp fn (sapp "(" (sapp col ")")).
+(** the repaired naming: "*" is displayed as 1 *)
+Definition fmt_arg (fn col : string) : string := fmt_spark fn (if String.eqb col "*" then "1"%string else col).
+Definition canon_ref (fn : string) : string := if String.eqb fn "mean" then "avg"%string else fn.
+(** functions.py's table as the translator emits it *)
+Definition ref_class (fn : string) : option string :=
+  if String.eqb fn "count" then Some "Count"%string else if String.eqb fn "sum" then Some "Sum"%string
+  else if String.eqb fn "avg" then Some "Avg"%string else if String.eqb fn "mean" then Some "Avg"%string
+  else if String.eqb fn "min" then Some "Min"%string else if String.eqb fn "max" then Some "Max"%string
+  else if String.eqb fn "count_distinct" then Some "CountDistinct"%string else None.
 Definition spark_short (m : shortfn) (col : string) : aexpr * string :=
   match m with
   | ShAvg | ShMean => (XAgg (FAvg (ECol col)), fmt_spark "avg" col)
@@ -92,7 +103,8 @@ Definition ncfg_ok (n : ncfg) : bool :=
 Section Names.
   Variable n : ncfg.
   Hypothesis Hok : ncfg_ok n = true.
-  Hypothesis Hfmt : forall f c, n_fmt n f c = fmt_spark f c.
+  Hypothesis Hfmt : forall f c, n_fmt n f c = fmt_arg f c.
+  Hypothesis Hcanon : forall f, n_canon n f = canon_ref f.
 
   Lemma ncfg_parts :
     (forall m, n_short_lit n m = fst (short_expect m) /\ n_fn_class n (fst (short_expect m)) = Some (snd (short_expect m)))
@@ -125,8 +137,10 @@ Section Names.
     String.eqb col "*" = false -> short_item n m col = Some (spark_short m col).
   Proof.
     intro Hc. destruct ncfg_parts as (Hs & _ & Hsan & _).
-    unfold short_item, applied. destruct (Hs m) as [E1 E2]. rewrite E1, E2.
-    unfold class_agg. rewrite Hc. rewrite Hsan, Hfmt.
+    unfold short_item, applied. destruct (Hs m) as [E1 E2]. rewrite E1, Hcanon.
+    assert (Ec : canon_ref (fst (short_expect m)) = fst (short_expect m)) by (destruct m; reflexivity).
+    rewrite Ec, E2.
+    unfold class_agg. rewrite Hc. rewrite Hsan, Hfmt. unfold fmt_arg. rewrite Hc.
     destruct m; reflexivity.
   Qed.
 
@@ -135,22 +149,36 @@ Section Names.
     destruct ncfg_parts as (_ & _ & _ & H1 & H2 & _). unfold count_item, spark_count. rewrite H1, H2. reflexivity.
   Qed.
 
-  (** dict form: same as PySpark for sum/avg/min/max/count of a named column *)
-  Definition dict_plain (fn : string) : bool :=
-    existsb (String.eqb fn) ["sum"; "avg"; "min"; "max"; "count"]%string.
-  Theorem dict_is_sparks col fn :
-    dict_plain fn = true -> String.eqb col "*" = false ->
-    dict_item n col fn = spark_dict col fn.
+  (** dict form: the same aggregate and the same name as PySpark, for EVERY function name and EVERY column name
+      (incl. 'mean', shown as avg, and '*', shown as 1; a function PySpark's dict form does not know gives no column
+      on either side) *)
+  Hypothesis Hcls : forall f, n_fn_class n f = ref_class f.
+  Theorem dict_is_sparks col fn : dict_item n col fn = spark_dict col fn.
   Proof.
-    intros Hf Hc. destruct ncfg_parts as (Hs & Hcnt & Hsan & _ & _ & Hd).
+    destruct ncfg_parts as (_ & _ & Hsan & _ & _ & Hd).
     unfold dict_item. rewrite Hd. unfold applied, spark_dict.
-    unfold dict_plain in Hf. simpl in Hf.
-    repeat (apply orb_true_iff in Hf; destruct Hf as [Hf|Hf]); try discriminate;
-      apply String.eqb_eq in Hf; subst fn; simpl.
-    - destruct (Hs ShSum) as [_ E]. simpl in E. rewrite E. unfold class_agg. rewrite Hc. simpl. rewrite Hsan, Hfmt. reflexivity.
-    - destruct (Hs ShAvg) as [_ E]. simpl in E. rewrite E. unfold class_agg. rewrite Hc. simpl. rewrite Hsan, Hfmt. reflexivity.
-    - destruct (Hs ShMin) as [_ E]. simpl in E. rewrite E. unfold class_agg. rewrite Hc. simpl. rewrite Hsan, Hfmt. reflexivity.
-    - destruct (Hs ShMax) as [_ E]. simpl in E. rewrite E. unfold class_agg. rewrite Hc. simpl. rewrite Hsan, Hfmt. reflexivity.
-    - rewrite Hcnt. unfold class_agg. rewrite Hc. simpl. rewrite Hsan, Hfmt. reflexivity.
+    rewrite Hcanon, Hcls. unfold canon_ref, ref_class.
+    destruct (String.eqb fn "mean") eqn:Emean.
+    { apply String.eqb_eq in Emean. subst fn. cbn.
+      destruct (class_agg "Avg" col); [rewrite Hsan, Hfmt; reflexivity | reflexivity]. }
+    cbv beta iota. rewrite ?Emean.
+    destruct (String.eqb fn "count") eqn:E1.
+    { apply String.eqb_eq in E1. subst fn. cbn.
+      destruct (class_agg "Count" col); [rewrite Hsan, Hfmt; reflexivity | reflexivity]. }
+    destruct (String.eqb fn "sum") eqn:E2.
+    { apply String.eqb_eq in E2. subst fn. cbn.
+      destruct (class_agg "Sum" col); [rewrite Hsan, Hfmt; reflexivity | reflexivity]. }
+    destruct (String.eqb fn "avg") eqn:E3.
+    { apply String.eqb_eq in E3. subst fn. cbn.
+      destruct (class_agg "Avg" col); [rewrite Hsan, Hfmt; reflexivity | reflexivity]. }
+    destruct (String.eqb fn "min") eqn:E4.
+    { apply String.eqb_eq in E4. subst fn. cbn.
+      destruct (class_agg "Min" col); [rewrite Hsan, Hfmt; reflexivity | reflexivity]. }
+    destruct (String.eqb fn "max") eqn:E5.
+    { apply String.eqb_eq in E5. subst fn. cbn.
+      destruct (class_agg "Max" col); [rewrite Hsan, Hfmt; reflexivity | reflexivity]. }
+    (* not a function of PySpark's dict form: no column on either side *)
+    unfold class_agg.
+    destruct (String.eqb fn "count_distinct"); destruct (String.eqb col "*"); reflexivity.
   Qed.
 End Names.
